@@ -12,11 +12,14 @@ import (
 	"sort"
 	"strings"
 
+	"git.defalsify.org/vise.git/cache"
 	"git.defalsify.org/vise.git/db"
 	fsdb "git.defalsify.org/vise.git/db/fs"
 	memdb "git.defalsify.org/vise.git/db/mem"
 	"git.defalsify.org/vise.git/db/postgres"
 	"git.defalsify.org/vise.git/lang"
+	"git.defalsify.org/vise.git/persist"
+	"git.defalsify.org/vise.git/state"
 	"verif/harness/fakepg"
 	"verif/harness/internal/hx"
 )
@@ -26,7 +29,8 @@ func init() { drivers["db"] = runDb }
 // ---- operations ---------------------------------------------------------------------------
 
 type dop struct {
-	kind string // put get pfx sess lang lock dump paths
+	kind string // put get pfx sess lang lock dump paths | save load (persist.Persister on the shared handle)
+	si   int    // save: which state the persister holds
 	k, v []byte
 	p    uint8
 	s    string
@@ -34,8 +38,39 @@ type dop struct {
 	lk   bool
 }
 
+// opSep separates the two model operations a persister operation stands for
+const opSep = "\x00"
+
+// persistState builds the i-th session state (deterministic; empty cache so that the CBOR
+// encoding is deterministic too). Different i give different records.
+func persistState(i int) (*state.State, *cache.Cache) {
+	st := state.NewState(uint32(i%3) * 8)
+	st.Down(fmt.Sprintf("node%d", i))
+	for j := 0; j < i%3; j++ {
+		st.Down(fmt.Sprintf("sub%d", j))
+	}
+	if i%2 == 0 {
+		st.SetCode([]byte{0, 7})
+	}
+	return st, cache.NewCache()
+}
+
+// persistRecord is what Persister.Serialize yields for the i-th state.
+func persistRecord(i int) []byte {
+	st, ca := persistState(i)
+	b, err := persist.NewPersister(nil).WithContent(st, ca).Serialize()
+	if err != nil {
+		panic(err)
+	}
+	return b
+}
+
 func (o dop) term() string {
 	switch o.kind {
+	case "save": // Save(key) = SetPrefix(STATE); Put(key, record)
+		return fmt.Sprintf("OSetPrefix %d%sOPut %s %s", db.DATATYPE_STATE, opSep, hx.B(o.k), hx.B(persistRecord(o.si)))
+	case "load": // Load(key) = SetPrefix(STATE); Get(key), observed through what the persister then holds
+		return fmt.Sprintf("OSetPrefix %d%sOGet %s", db.DATATYPE_STATE, opSep, hx.B(o.k))
 	case "put":
 		return fmt.Sprintf("OPut %s %s", hx.B(o.k), hx.B(o.v))
 	case "get":
@@ -59,6 +94,10 @@ func (o dop) term() string {
 
 func (o dop) short() string {
 	switch o.kind {
+	case "save":
+		return fmt.Sprintf("persister.Save(%q,state#%d)", o.k, o.si)
+	case "load":
+		return fmt.Sprintf("persister.Load(%q)", o.k)
 	case "put":
 		return fmt.Sprintf("put(%q,%q)", o.k, o.v)
 	case "get", "dump", "paths":
@@ -87,6 +126,7 @@ type backend struct {
 	d    db.Db
 	root string // fs: model root (temp dir); the store is root/p/q/s
 	srv  *fakepg.Server
+	pers *persist.Persister // shares the handle d
 }
 
 var storeDir = []string{"p", "q", "s"}
@@ -180,6 +220,32 @@ func (b *backend) apply(o dop) string {
 	res := "DOk"
 	pk, _ := hx.Recover(func() {
 		switch o.kind {
+		case "save":
+			if b.pers == nil {
+				b.pers = persist.NewPersister(b.d)
+			}
+			st, ca := persistState(o.si)
+			b.pers.WithContent(st, ca)
+			res = "DOk" + opSep + "DOk"
+			if err := b.pers.Save(string(o.k)); err != nil {
+				res = "DOk" + opSep + errTerm(err)
+			}
+		case "load":
+			if b.pers == nil {
+				st, ca := persistState(0)
+				b.pers = persist.NewPersister(b.d).WithContent(st, ca)
+			}
+			if err := b.pers.Load(string(o.k)); err != nil {
+				res = "DOk" + opSep + errTerm(err)
+				return
+			}
+			// what Load consumed: the record the persister now holds
+			rec, err := b.pers.Serialize()
+			if err != nil {
+				res = "DOk" + opSep + "DErr EGen"
+				return
+			}
+			res = "DOk" + opSep + "DVal " + hx.B(rec)
 		case "put":
 			if err := b.d.Put(ctx, append([]byte{}, o.k...), append([]byte{}, o.v...)); err != nil {
 				res = errTerm(err)
@@ -250,6 +316,9 @@ func (b *backend) apply(o dop) string {
 	})
 	if pk {
 		res = "DPanic"
+		if o.kind == "save" || o.kind == "load" {
+			res = "DOk" + opSep + "DPanic"
+		}
 	}
 	return res
 }
@@ -316,7 +385,7 @@ func (rn *dbrunner) run(kind string, ops []dop) error {
 	obs := make([][]string, len(bs))
 	var shorts []string
 	for _, o := range ops {
-		if o.kind == "put" || o.kind == "get" || o.kind == "paths" {
+		if o.kind == "put" || o.kind == "get" || o.kind == "paths" || o.kind == "save" || o.kind == "load" {
 			ok := true
 			for _, b := range bs {
 				if !b.safe(o.k) {
@@ -332,7 +401,10 @@ func (rn *dbrunner) run(kind string, ops []dop) error {
 		line := o.short() + " =>"
 		for i, b := range bs {
 			r := b.apply(o)
-			obs[i] = append(obs[i], r)
+			obs[i] = append(obs[i], strings.Split(r, opSep)...)
+			if j := strings.LastIndex(r, opSep); j >= 0 {
+				r = r[j+len(opSep):]
+			}
 			if len(r) > 28 {
 				r = r[:28] + "..."
 			}
@@ -344,9 +416,9 @@ func (rn *dbrunner) run(kind string, ops []dop) error {
 		shorts = append(shorts, line)
 		rn.w.Count("op:" + o.kind)
 	}
-	terms := make([]string, len(kept))
-	for i, o := range kept {
-		terms[i] = o.term()
+	var terms []string
+	for _, o := range kept {
+		terms = append(terms, strings.Split(o.term(), opSep)...)
 	}
 	dir := hx.SList(storeDir)
 	term := fmt.Sprintf("mkDbCase %s %s %s %s %s %s %s %s %s", dir, hx.List(paren(terms)),
@@ -669,6 +741,66 @@ func (rn *dbrunner) corpus() error {
 
 func dbTemplate() uint8 { return db.DATATYPE_TEMPLATE }
 
+// persister histories: a persist.Persister and direct calls share one db handle. The direct calls
+// switch the handle to USERDATA / STATE, other sessions, and store records under the persister's
+// own key; every Load must still yield the record last saved for (STATE, session, key).
+func persistCorpus() [][]dop {
+	U, S := uint8(db.DATATYPE_USERDATA), uint8(db.DATATYPE_STATE)
+	k := []byte("ussd")
+	return [][]dop{
+		{{kind: "sess", s: "alice"}, {kind: "save", k: k, si: 1}, {kind: "pfx", p: U}, {kind: "put", k: k, v: persistRecord(2)},
+			{kind: "load", k: k}, {kind: "pfx", p: U}, {kind: "get", k: k}, {kind: "load", k: k}, {kind: "save", k: k, si: 3},
+			{kind: "pfx", p: U}, {kind: "load", k: k}},
+		{{kind: "sess", s: "alice"}, {kind: "pfx", p: U}, {kind: "put", k: k, v: persistRecord(4)}, {kind: "load", k: k},
+			{kind: "save", k: k, si: 5}, {kind: "sess", s: "bob"}, {kind: "pfx", p: U}, {kind: "load", k: k},
+			{kind: "pfx", p: S}, {kind: "put", k: k, v: []byte("not a record")}, {kind: "load", k: k},
+			{kind: "sess", s: "alice"}, {kind: "pfx", p: U}, {kind: "load", k: k}},
+	}
+}
+
+func genPersist(r *rand.Rand, thorough bool) []dop {
+	U, S := uint8(db.DATATYPE_USERDATA), uint8(db.DATATYPE_STATE)
+	sessPool := []string{"alice", "bob", "+2547", "s1", ""}
+	sessPool = []string{sessPool[r.Intn(4)], sessPool[r.Intn(5)]}
+	keyPool := [][]byte{[]byte("ussd"), []byte([]string{"k1", "state", "foo"}[r.Intn(3)])}
+	si := 0
+	next := func() int { si++; return si }
+	small := 0
+	ops := []dop{{kind: "sess", s: sessPool[0]}}
+	if r.Intn(4) == 0 {
+		ops = append(ops, unlockAll()...)
+	}
+	n := 6 + r.Intn(10)
+	if thorough {
+		n = 6 + r.Intn(30)
+	}
+	for i := 0; i < n; i++ {
+		k := keyPool[r.Intn(2)]
+		if r.Intn(3) > 0 {
+			k = keyPool[0]
+		}
+		switch x := r.Intn(100); {
+		case x < 22:
+			ops = append(ops, dop{kind: "save", k: k, si: next()})
+		case x < 50:
+			ops = append(ops, dop{kind: "load", k: k})
+		case x < 68: // the handle is left on USERDATA, a record of another state under the same key
+			ops = append(ops, dop{kind: "pfx", p: U}, dop{kind: "put", k: k, v: persistRecord(next())})
+		case x < 76:
+			ops = append(ops, dop{kind: "pfx", p: []uint8{U, U, S, docTypes[r.Intn(6)]}[r.Intn(4)]})
+		case x < 84:
+			ops = append(ops, dop{kind: "sess", s: sessPool[r.Intn(2)]})
+		case x < 92:
+			ops = append(ops, dop{kind: "get", k: k})
+		default:
+			small++
+			ops = append(ops, dop{kind: "put", k: k, v: []byte(fmt.Sprintf("u%d", small))})
+		}
+	}
+	ops = append(ops, dop{kind: "load", k: keyPool[0]})
+	return ops
+}
+
 func runDb(o opts) error {
 	viol := "db_violations_c10"
 	if o.prop == "C11" {
@@ -699,6 +831,21 @@ func runDb(o opts) error {
 	for c := 0; c < nAdv; c++ {
 		r := hx.Rng(o.seed, "db-adv", c)
 		if err := rn.run("adversarial", genAdversarial(r, thorough)); err != nil {
+			return err
+		}
+	}
+	for _, ops := range persistCorpus() {
+		if err := rn.run("corpus:persister-shared-handle", ops); err != nil {
+			return err
+		}
+	}
+	nPers := o.n / 6
+	if nPers < 20 {
+		nPers = 20
+	}
+	for c := 0; c < nPers; c++ {
+		r := hx.Rng(o.seed, "db-persist", c)
+		if err := rn.run("persister", genPersist(r, thorough)); err != nil {
 			return err
 		}
 	}
